@@ -61,7 +61,7 @@ def unhex(h):
 
 def run(res):
     theorems = ["Props.c20_plain", "Props.c20_ctx", "Props.c20_called_iff", "Props.c20_plain_called_iff", "Props.c20_ctx_called_iff",
-                "Props.c20_reject", "Props.c20_408_iff"]
+                "Props.c20_reject", "Props.c20_408_iff", "Props.c20_sequence", "Props.c20_sequence_called_iff", "Props.c20_pooled_witness"]
     with C.Lock():
         ok_f, log_f, ch = regen_mwfacts()
     broken, model_ok = gen.prepare(res, "Gvlean.Props.C20", theorems)
